@@ -336,8 +336,13 @@ VAR_TABLES = {
 # representable as doubles so that the documented value does not depend on how the conversion rounds
 VAR_TABLES['pyint'] = dict(zip(NAMES, [_cx(2), _cx(100), _cx(299792458), _cx(10**10), _cx(-10**10), _cx(3), _cx(-7),
                                        _cx(64), _cx(2**32), _cx(10**19)]))
-VAR_IDS = {'int': 0, 'dec': 1, 'cplx': 2, 'pyint': 3}
-VAR_KEYS = ('int', 'dec', 'cplx', 'pyint')
+# bindings of extreme magnitude in both directions (large arguments for exp / hyperbolic functions, denormal and tiny
+# arguments for trigonometric functions and products): intermediates underflow silently, the final value is ordinary
+VAR_TABLES['extreme'] = dict(zip(NAMES, [_cx(800), _cx(30), _cx(1000), _cx(Fraction(1e-310)), _cx(Fraction(1e-200)),
+                                         _cx(Fraction(1e-160)), _cx(-800, 2), _cx(100), _cx(Fraction(5e-324)),
+                                         _cx(Fraction(-1e-250))]))
+VAR_IDS = {'int': 0, 'dec': 1, 'cplx': 2, 'pyint': 3, 'extreme': 4}
+VAR_KEYS = ('int', 'dec', 'cplx', 'pyint', 'extreme')
 CONST_NAMES = ['pi', 'e', 'i', 'j']
 SUFFIX_IDS = {'default': 0, 'metric': 1}
 
@@ -363,7 +368,8 @@ def _user_fp(x):
 
 
 USER_FUNCS = {'f': (_user_f, 1), 'F': (_user_F, 1), 'g': (_user_g, 2), 'h': (_user_h, 3), "f'": (_user_fp, 1)}
-DEFAULT_USED = ['sqrt', 'abs', 'sin', 'cos', 'exp', 'max', 'min', 're', 'im', 'conj']
+DEFAULT_USED = ['sqrt', 'abs', 'sin', 'cos', 'exp', 'max', 'min', 're', 'im', 'conj',
+                'tan', 'sinh', 'cosh', 'tanh', 'arctan', 'arcsinh', 'sech']
 FUNC_NAMES = sorted(USER_FUNCS) + DEFAULT_USED
 
 _IMPL = {}
@@ -1446,12 +1452,12 @@ def sizes(ctx):
     tier, esc = ctx['tier'], ctx['escalate']
     if tier == 'thorough':
         return dict(leads12=('', '-', '+'), leads3=('', '-', '+'), seq4_basic=False, seq4_random=20736, leaf_sets=6,
-                    derivations=4000, renderings=6, invalid=3000, mutants=8000, graders=300, int_derivations=3000)
+                    derivations=4000, renderings=6, invalid=3000, mutants=8000, graders=300, int_derivations=3000, extreme=4000)
     if esc:
         return dict(leads12=('', '-', '+'), leads3=('', '-'), seq4_basic=True, seq4_random=1500, leaf_sets=1,
-                    derivations=500, renderings=6, invalid=700, mutants=2000, graders=100, int_derivations=500)
+                    derivations=500, renderings=6, invalid=700, mutants=2000, graders=100, int_derivations=500, extreme=500)
     return dict(leads12=('', '-', '+'), leads3=('',), seq4_basic=True, seq4_random=600, leaf_sets=1,
-                derivations=300, renderings=5, invalid=400, mutants=1000, graders=60, int_derivations=250)
+                derivations=300, renderings=5, invalid=400, mutants=1000, graders=60, int_derivations=250, extreme=300)
 
 
 class Collector(object):
@@ -1571,6 +1577,220 @@ def run_literals(ctx, res, col, rng):
                 witness(res, 'derivation', n, var_key, 'default', bad, expected=plain_expected(exp), canonical=n)
             res.nontrivial.add(('name', n, var_key))
     col.count('literal_strings', len(forms) * (1 + len(SUFFIX_VALUES)) + 3 * len(NAMES + CONST_NAMES))
+
+
+# -------------------------------------------------------------------------------------------------
+# extreme magnitudes: the oracle is plain Python float / complex arithmetic with math / cmath (which underflow to 0.0 or
+# to denormals silently), evaluated twice (inputs perturbed by 1e-13) to make sure the value is well conditioned
+# -------------------------------------------------------------------------------------------------
+def _fl_fn(name, z):
+    real = not isinstance(z, complex)
+    try:
+        if name == 'abs':
+            return abs(z)
+        if name == 'sech':
+            return 1 / (math.cosh(z) if real else cmath.cosh(z))
+        if name == 'arctan':
+            return math.atan(z) if real else cmath.atan(z)
+        if name == 'arcsinh':
+            return math.asinh(z) if real else cmath.asinh(z)
+        if name == 'sqrt':
+            return math.sqrt(z) if (real and z >= 0) else cmath.sqrt(z)
+        return getattr(math if real else cmath, name)(z)
+    except (OverflowError, ValueError, ZeroDivisionError):
+        raise Skip('range')
+
+
+def fdenote(e, var_key, pert=0.0):
+    k = e[0]
+    if k == 'num':
+        v = float(numeral_exact(e[1]))
+        return v * float(SUFFIX_VALUES[e[2]]) if e[2] else v
+    if k == 'var':
+        if e[1] in CONSTS:
+            return CONSTS[e[1]]
+        if e[1] in ('i', 'j'):
+            return 1j
+        re_, im_ = VAR_TABLES[var_key][e[1]]
+        v = complex(float(re_), float(im_)) if im_ != 0 else float(re_)
+        return v * (1 + pert)
+    if k in ('paren', 'pos'):
+        return fdenote(e[1], var_key, pert)
+    if k == 'neg':
+        v = fdenote(e[1], var_key, pert)
+        return [-x for x in v] if isinstance(v, list) else -v
+    if k == 'arr':
+        vs = [fdenote(a, var_key, pert) for a in e[1]]
+        if any(isinstance(x, list) for x in vs):
+            raise Skip('matrix')
+        return vs
+    if k == 'app':
+        args = [fdenote(a, var_key, pert) for a in e[2]]
+        if len(args) != 1 or isinstance(args[0], list):
+            raise Skip('function')
+        return _fl_fn(e[1], args[0])
+    if k == 'par':
+        vs = [fdenote(a, var_key, pert) for a in e[1]]
+        if any(isinstance(x, list) for x in vs):
+            raise Skip('array')
+        if any(x == 0 for x in vs):
+            return 0.0
+        try:
+            return 1 / sum(1 / x for x in vs)
+        except (ZeroDivisionError, OverflowError):
+            raise Skip('range')
+    a, b = fdenote(e[1], var_key, pert), fdenote(e[2], var_key, pert)
+    la, lb = isinstance(a, list), isinstance(b, list)
+    try:
+        if k in ('add', 'sub'):
+            sg = 1 if k == 'add' else -1
+            if la and lb and len(a) == len(b):
+                return [x + sg * y for x, y in zip(a, b)]
+            if la or lb:
+                raise Skip('array')
+            return a + sg * b
+        if k == 'mul':
+            if la and lb:
+                if len(a) != len(b):
+                    raise Skip('array')
+                return sum(x * y for x, y in zip(a, b))         # vector * vector is the dot product
+            if la:
+                return [x * b for x in a]
+            if lb:
+                return [a * y for y in b]
+            return a * b
+        if k == 'div':
+            if lb:
+                raise Skip('array')
+            return [x / b for x in a] if la else a / b
+        if k == 'pow':
+            if la or lb:
+                raise Skip('array')
+            return a ** b
+    except (ZeroDivisionError, OverflowError):
+        raise Skip('range')
+    raise ValueError(k)
+
+
+def float_expected(e, var_key):
+    """('fvalue', value) when plain floating-point evaluation gives a finite, well-conditioned value; else ('skip', why)"""
+    def flat(v):
+        return [complex(x) for x in v] if isinstance(v, list) else [complex(v)]
+    try:
+        v0, v1 = fdenote(e, var_key, 0.0), fdenote(e, var_key, 1e-13)
+    except Skip as why:
+        return ('skip', str(why))
+    except (KeyError, ValueError, TypeError, OverflowError, ZeroDivisionError):
+        return ('skip', 'outside the float oracle')
+    f0, f1 = flat(v0), flat(v1)
+    if len(f0) != len(f1) or not all(cmath.isfinite(x) for x in f0 + f1):
+        return ('skip', 'range')
+    for p, q in zip(f0, f1):
+        if abs(p - q) > 1e-10 * max(abs(p), abs(q)) or (p != 0 and abs(p) < 1e-150) or abs(p) > 1e150:
+            return ('skip', 'ill-conditioned')
+    return ('fvalue', v0)
+
+
+UNDERFLOW_FNS = ['exp', 'sin', 'cos', 'tan', 'sinh', 'cosh', 'tanh', 'arctan', 'arcsinh', 'sech', 'sqrt', 'abs']
+BIG_NAMES = ['x', 'y', 'X', 'b2']
+TINY_NAMES = ['z_1', 'a_{1}', 'T_{1}^{2}', 'k', 'phi_{-1}']
+
+
+def gen_extreme(rng):
+    """ordinary constants combined with terms whose evaluation passes through very small / very large magnitudes"""
+    def big_arg():
+        r = rng.random()
+        a = ('var', rng.choice(BIG_NAMES + ["x'"]))
+        if r < 0.3:
+            return ('neg', a)
+        if r < 0.5:
+            return ('neg', ('pow', a, ('num', '2', None)))
+        if r < 0.65:
+            return ('neg', ('mul', a, ('var', rng.choice(BIG_NAMES))))
+        if r < 0.8:
+            return ('div', ('neg', a), ('num', rng.choice(['2', '0.5', '10']), None))
+        return a
+
+    def tiny_arg():
+        a = ('var', rng.choice(TINY_NAMES))
+        r = rng.random()
+        if r < 0.2:
+            return ('neg', a)
+        if r < 0.35:
+            return ('mul', a, ('var', rng.choice(TINY_NAMES)))
+        if r < 0.45:
+            return ('div', a, ('var', rng.choice(BIG_NAMES)))
+        return a
+
+    def term():
+        r = rng.random()
+        if r < 0.45:
+            return ('app', rng.choice(['exp', 'exp', 'tanh', 'sech', 'cosh', 'sinh', 'arctan']), [big_arg()])
+        if r < 0.85:
+            return ('app', rng.choice(['sin', 'cos', 'tan', 'sinh', 'tanh', 'arctan', 'arcsinh', 'exp', 'sqrt', 'abs']), [tiny_arg()])
+        if r < 0.93:
+            return tiny_arg()
+        return ('mul', tiny_arg(), tiny_arg())
+
+    def const():
+        return ('num', rng.choice(['1', '2', '0.5', '3', '1.5', '10', '0.25']), None)
+
+    r = rng.random()
+    if r < 0.2:
+        return (rng.choice(['add', 'sub']), const(), term())
+    if r < 0.35:
+        return (rng.choice(['add', 'sub']), term(), const())
+    if r < 0.5:
+        return ('div', const(), ('paren', ('add', const(), term())))
+    if r < 0.6:
+        return ('add', ('mul', term(), term()), const())
+    if r < 0.7:
+        return ('mul', ('paren', ('add', const(), term())), const())
+    if r < 0.85:
+        u, v = ('arr', [term(), const()]), ('arr', [term(), const()])
+        return ('mul', u, v) if rng.random() < 0.7 else ('mul', ('paren', ('add', u, v)), ('arr', [const(), term()]))
+    if r < 0.93:
+        return ('add', ('arr', [term(), const()]), ('mul', term(), ('arr', [const(), const()])))
+    return ('par', [('paren', ('add', const(), term())), const()])
+
+
+def value_close(v, want):
+    I = impl()
+    if isinstance(want, list):
+        if not (isinstance(v, I['MathArray']) or isinstance(v, (list, tuple))):
+            return False
+        xs = list(v)
+        return len(xs) == len(want) and all(value_close(x, w) for x, w in zip(xs, want))
+    if isinstance(v, I['MathArray']):
+        return False
+    return close(v, complex(want))
+
+
+def run_extreme(ctx, res, col, rng, sz):
+    n = hit = 0
+    tries = 0
+    while n < sz['extreme'] and tries < sz['extreme'] * 20:
+        tries += 1
+        e = gen_extreme(rng)
+        exp = float_expected(e, 'extreme')
+        if exp[0] != 'fvalue':
+            continue
+        n += 1
+        s = join_tokens(tokens(e), rng, rng.choice(['canon', 'canon', 'ws', 'spaces']))
+        r = run_impl(s, 'extreme', 'default')
+        col.add(s, 'extreme', 'default', r, stream='extreme', exp=('skip', 'extreme magnitudes: compared with the float oracle'))
+        res.oracle_evals += 1
+        ok = r['status'] == 'ret' and r['cls'] == 'value' and value_close(r['value'], exp[1])
+        if not ok:
+            hit += 1
+            witness(res, 'extreme', s, 'extreme', 'default',
+                    'intermediate results of very small / large magnitude: evaluator returned %s %r, plain floating-point '
+                    'evaluation of the documented semantics gives %r' % (r['cls'], r.get('value', r.get('exc')), exp[1]),
+                    expected={'kind': 'fvalue', 'value': repr(exp[1])}, canonical=''.join(tokens(e)))
+            if hit >= 8:
+                break
+        res.nontrivial.add(('extreme', s))
+    col.count('extreme_strings', n)
 
 
 INT_LEAF_SETS = [['x', 'y', 'T_{1}^{2}', 'X', 'b2'], ['X', 'X', 'X', 'x', 'T_{1}^{2}'], ['z_1', 'a_{1}', 'k', 'k', "x'"],
@@ -1877,6 +2097,9 @@ def probe_outcomes(probes=None):
                 out[name + '.default_functions'] = _table(cls.default_functions)
                 out[name + '.default_suffixes'] = _table(cls.default_suffixes)
         out['MathMixin.default_suffixes'] = _table(math_helpers.MathMixin.default_suffixes)
+        import numpy as _np
+        out['numpy.geterr()'] = [list(kv) for kv in sorted(_np.geterr().items())]
+        out['numpy.geterrcall()'] = getattr(_np.geterrcall(), '__name__', repr(_np.geterrcall()))
     return out
 
 
@@ -1941,6 +2164,8 @@ def run_perturbers():
 
 
 def compare_probes(res, here, fresh):
+    import json as _json
+    here = _json.loads(_json.dumps(here))          # same representation as what came back from the fresh interpreter
     n = 0
     for key in sorted(set(here) | set(fresh), key=lambda k: (not k.startswith('evaluator'), k)):
         a, b = here.get(key), fresh.get(key)
@@ -1963,6 +2188,15 @@ def run_history(ctx, res, col):
     here = probe_outcomes()
     fresh = fresh_probe_outcomes()
     n = compare_probes(res, here, fresh)
+    # process state the library documents (expressions.py: divide / overflow / invalid are trapped, underflow is not)
+    documented = [['divide', 'call'], ['invalid', 'call'], ['over', 'call'], ['under', 'ignore']]
+    for where, got in (('after the run', here), ('in a fresh interpreter', fresh)):
+        if [list(x) for x in got.get('numpy.geterr()', [])] != documented:
+            witness(res, 'state', 'numpy.geterr()', 'default', 'default',
+                    'numpy floating-point error handling %s is %r, the library documents %r (silent underflow); '
+                    'formulas whose intermediates underflow would be rejected' % (where, got.get('numpy.geterr()'), documented),
+                    probe='numpy.geterr()')
+            break
     res.oracle_evals += n
     col.count('history_probes', n)
     res.nontrivial.add(('history-probes', n))
@@ -1994,6 +2228,7 @@ def run(ctx):
     col.count('perturbing_grader_calls', run_perturbers())
     run_literals(ctx, res, col, rng)
     run_int_bindings(ctx, res, col, rng, sz)
+    run_extreme(ctx, res, col, rng, sz)
     run_sequences(ctx, res, col, rng, sz)
     run_derivations(ctx, res, col, rng, sz)
     run_invalid(ctx, res, col, rng, sz)
@@ -2034,6 +2269,16 @@ def replay(w):
         st, r = core.guarded(cls(answers=w['answer'], tolerance='0.0001%'), None, s)
         bad = not (st == 'ret' and r.get('ok') is w['should'])
         return bad, '%s(answers=%r)(None, %r) -> %r (expected ok=%r)' % (w['grader'], w['answer'], s, r, w['should'])
+    if kind == 'state':
+        got = [list(x) for x in probe_outcomes().get('numpy.geterr()', [])]
+        want = [['divide', 'call'], ['invalid', 'call'], ['over', 'call'], ['under', 'ignore']]
+        return got != want, 'numpy.geterr() after importing the library: %r (documented: %r)' % (got, want)
+    if kind == 'extreme':
+        r = run_impl(s, 'extreme', 'default')
+        want = eval(w['expected']['value'], {'__builtins__': {}}, {})         # repr of a float / complex / list of them
+        ok = r['status'] == 'ret' and r['cls'] == 'value' and value_close(r['value'], want)
+        return (not ok), 'evaluator(%r) [extreme bindings] -> %s %r; plain floating point gives %r' % (
+            s, r['cls'], r.get('value', r.get('exc')), want)
     if kind == 'history':
         run_perturbers()
         res = core.Result()
